@@ -283,6 +283,16 @@ impl DelphiLogicalLinesReconstructor {
     }
 }
 
+/// The greatest char boundary of `s` that is not after `index` (the content of a token may have
+/// changed under a cursor that was inside it).
+fn floor_char_boundary(s: &str, mut index: usize) -> usize {
+    index = index.min(s.len());
+    while !s.is_char_boundary(index) {
+        index -= 1;
+    }
+    index
+}
+
 impl CursorTracker for CursorTrackerImpl<'_> {
     fn notify_token_deleted(&mut self, deleted_token: usize) {
         for cursor in &mut self.cursors {
@@ -320,7 +330,9 @@ impl CursorTracker for CursorTrackerImpl<'_> {
             cursor.cursor.0 = match cursor.tok_pos {
                 TokPos::Content { offset } => {
                     // offset into the token content, but don't go over the end of the token if its length has changed
-                    new_token_offset as u32 + offset.min(tok.get_content().len() as u32)
+                    let content = tok.get_content();
+                    let offset = (offset as usize).min(content.len());
+                    (new_token_offset + floor_char_boundary(content, offset)) as u32
                 }
                 TokPos::MultilineContent {
                     reverse_col,
@@ -336,8 +348,9 @@ impl CursorTracker for CursorTrackerImpl<'_> {
 
                     // The lines after the cursor may have been rewritten to be shorter than they
                     // were (e.g. de-indented multiline strings); stay within the token.
-                    (new_token_offset + tok.get_content().len().saturating_sub(offset_from_end))
-                        as u32
+                    let content = tok.get_content();
+                    let offset = content.len().saturating_sub(offset_from_end);
+                    (new_token_offset + floor_char_boundary(content, offset)) as u32
                 }
                 TokPos::Whitespace {
                     col,
@@ -374,9 +387,15 @@ impl CursorTracker for CursorTrackerImpl<'_> {
                         };
                         let col_start = col_ws_start + ws.len;
 
-                        (new_token_offset
-                            - (col_start - (col as usize).clamp(col_ws_start, col_start)))
-                            as u32
+                        let mut back = col_start - (col as usize).clamp(col_ws_start, col_start);
+                        if fmt.is_ignored() {
+                            // The original whitespace is kept, and it may contain multi-byte blanks.
+                            let ws = tok.get_leading_whitespace();
+                            let pos = ws.len().saturating_sub(back);
+                            back = ws.len() - floor_char_boundary(ws, pos);
+                        }
+
+                        (new_token_offset - back) as u32
                     }
                 }
             };
